@@ -59,8 +59,8 @@ check(
     'fault_enumeration',
     'All 2^(P*K) per-(step, iteration) convergence patterns are enumerated for P<=3,K<=3 (quick) / P<=4,K<=4 (thorough) times 56 '
     'configurations (1-3 levels, every predictor, both couplings, all_to_done, 1-2 fine sweeps) on the real controller_nonMPI, '
-    'plus seeded samples up to P=8, K=8, 3 blocks with force_done/force_continue flags; nine invariants (no protocol error, '
-    'lock-step at pfasst() entry, finish order, frozen after finish, transfer matching against an independent mailbox model, '
+    'plus seeded samples up to P=8, K=8, 3 blocks (30 % with a partly filled last block) with force_done/force_continue flags; nine invariants (no protocol error, '
+    'lock-step at pfasst() entry, finish order, frozen after finish, transfer matching against an independent mailbox model (level, iteration, sender, and every forward transfer consumed exactly once), '
     'termination within a derived callback bound, callback grammar, all_to_done equal iterations, iteration budget) are checked on every run.',
     'The convergence verdict is injected by a plug-in convergence controller at order 190 (stub physics: 1-dof test equation); all other '
     'code is the shipped one. Complete only for the enumerated bounds; beyond them it is sampling. The MPI controller is covered by C08.',
@@ -109,7 +109,8 @@ check(
     'The restart/step-size/convergence histories of C06, C07 and C09-A are run with every per-step logging hook enabled; the reference is the '
     'observer event log, independent eval_f counts from counting problem subclasses and a spy on Hooks.add_to_stats. Checked per accepted step '
     'and quantity: exactly one record after filter_stats(recomputed=False), key fields (process, iter, num_restarts), values (niter vs callbacks, '
-    'dt, u bits, work counters), overwritten records, untyped filtering, filter/sort helpers against reference comprehensions.',
+    'dt, u bits, work counters), per-iteration records (residual_post_iteration: iterations 1..niter with the step\'s slot and restart count), quantities expected from the '
+    'configuration even when no record exists, overwritten records, untyped filtering, extra keys carried by every record of a type, filter/sort helpers against reference comprehensions.',
     'Known findings F03 (restart count not monotone per time key defeats the recomputed filter) and F04 (middle-level sweep key collision) are '
     'reported as KNOWN-FINDING; violations at time keys tainted by F03 are attributed to it. Aborted runs (ConvergenceError) are not judged. '
     'timing_* records excluded.',
@@ -125,7 +126,8 @@ check(
     'P 1..8, predictors, couplings, tolerances reached at iteration 0/1/.../never) with soft faults in iterates producing non-monotone residual '
     'histories, plus injected verdict/force patterns. At every post_iteration/post_step a shadow problem instance recomputes the collocation '
     'defect from the node values held (Q from qmat) and compares with the reported residual within a derived rounding bound; stopping soundness, '
-    'iteration budget and logged values are judged on the recorded history.',
+    'iteration budget and logged values are judged on the recorded history; with an increment tolerance (e_tol) a stop above restol is accepted only if the harness\'s own '
+    'increment of that step\'s last iteration is below it; NaN soft faults (a residual that is not a number is not at most the tolerance).',
     'Sampling. Known finding F08 (finished at iteration 0 without a sweep) is reported as KNOWN-FINDING. Soft faults are never placed between '
     'the computation of a residual and the decision taken on it. imex_1st_order_mass and multi_implicit are driven on harness-owned problem '
     'classes (sim/massproblem.py, listed as stubs). MPI flavour: C08.',
@@ -143,7 +145,7 @@ check(
     'end value of the previous step: |uend - uend_ref| <= kappa_end*(actual defect) + derived rounding.',
     'Sampling; linear/affine problems only (A, b(t) probed from a shadow instance). The bound is a consequence of linear algebra for any state, '
     'so it detects end values/defects inconsistent with the node values, not slow convergence; a second clause judges steps whose REPORTED '
-    'residual meets restol against kappa*restol. multi_implicit is driven on a harness-owned two-part problem. Known finding F12. MPI flavour: C08.',
+    'residual meets restol against kappa*restol, a third one requires that two consecutive converged steps are chained (start value within 10*restol of the predecessor\'s end value). multi_implicit is driven on a harness-owned two-part problem. Known finding F12. MPI flavour: C08.',
     'deterministic simulation: seeded soft-fault injection into multi-level multi-step runs, refinement check against an executable reference model',
     'DESIGN 3 (C01)',
 )
